@@ -350,3 +350,40 @@ def wrappers(ctx):
                 ('name', 'warnflag'), ('attr', sv, '_total_evals'))
         ctx.check(tup == want, name + '#full_output', '(x, fval, iterations, fcalls, warnflag, total evaluations of all members)',
                   '%s returns %s' % (name, T.show(tup)), f, rl[0])
+
+
+@rule('C09.g', min_instances=1)
+def members_get_the_decorated_objective(ctx):
+    """a member that still needs an objective at solve time (a configured nested instance) receives the ensemble's *decorated* objective (self._bootstrap_objective(...): bounds gate, penalty, constraints), never the raw cost - for a configured instance that wrapper is the only route by which the ensemble's settings reach it"""
+    f = ctx.func(E + '._Solve')
+    sn = selfname_of(f)
+    n = 0
+    for q, nf in sorted(f.module.funcs.items()):
+        if nf.parent is not f:
+            continue
+        calls = calls_where(nf.node, lambda c: isinstance(c.func, ast.Attribute) and c.func.attr == 'SetObjective', include_lambda=False)
+        for c in calls:
+            n += 1
+            ctx.need(c.args, 'SetObjective without a positional objective in %s' % nf.qualname)
+            # value of the objective expression: locals of the closure first, then the enclosing function's bindings
+            # that precede the nested def (free variables of the closure)
+            b = T.Builder()
+            for st in f.node.body:
+                if st is nf.node:
+                    break
+                if isinstance(st, (ast.Assign, ast.AugAssign)):
+                    b.exec_stmt(st)
+            inner_locals = set(x for st_ in stmts_of(nf.node) for x in assigned_names(st_)) | set(a.arg for a in nf.node.args.args)
+            for name in inner_locals:
+                b.env.pop(name, None)
+            for st in stmts_of(nf.node):
+                if st.lineno >= c.lineno:
+                    break
+                if isinstance(st, ast.Assign) and not guards_of(st, stop=nf.node):
+                    b.exec_stmt(st)
+            v = T.simp(b.t(c.args[0]))
+            good = v[0] == 'call' and v[1] == ('attr', ('name', sn), '_bootstrap_objective')
+            ctx.check(good, '%s#SetObjective' % nf.qualname, 'member objective = %s' % T.show(v)[:70],
+                      'a member solver is handed %s as its objective instead of the ensemble-decorated one (self._bootstrap_objective(...)): '
+                      'the ensemble\'s strict ranges, penalty and constraints never reach a configured nested instance' % T.show(v)[:80], nf, c)
+    ctx.need(n >= 1, 'no SetObjective call found in the closures of AbstractEnsembleSolver._Solve')
